@@ -630,8 +630,12 @@ func (r *c29Run) finish() int {
 	if os.Getenv("VERIF_REPLAY") == "" {
 		bz, err := json.MarshalIndent(ev, "", " ")
 		if err == nil {
-			_ = os.MkdirAll(filepath.Join(r.root, "evidence"), 0o755)
-			err = os.WriteFile(filepath.Join(r.root, "evidence", "C29.json"), bz, 0o644)
+			dir := filepath.Join(r.root, "evidence")
+			if d := os.Getenv("VERIF_EVIDENCE_DIR"); d != "" { // development aid (tools/seedregress.sh)
+				dir = d
+			}
+			_ = os.MkdirAll(dir, 0o755)
+			err = os.WriteFile(filepath.Join(dir, "C29.json"), bz, 0o644)
 		}
 		if err != nil {
 			r.broken = append(r.broken, "evidence: "+err.Error())
